@@ -37,3 +37,13 @@ func TestPools(t *testing.T) {
 		}
 	}
 }
+
+func TestRandomExprAlphabet(t *testing.T) {
+	for _, a := range []string{`[0-9]`, `[a-z]`, `[a-c0-2]`, `x`, `ab`, `\d`, `\w`, `(a|b)`, `(x|yz)`, `[A-Z]`, `(p(q)?)`, `[._-]`, `.`, "+", "*", "?", "{1,2}", "{2}", "+?"} {
+		for i := 0; i < len(a); i++ {
+			if !model.IsRegexChar(a[i]) {
+				t.Fatalf("%q contains %q", a, a[i])
+			}
+		}
+	}
+}
